@@ -216,6 +216,12 @@ func init() {
 	props["C04"].Harnesses = append(props["C04"].Harnesses, HarnessSpec{Name: "VH_C01_no_store", Replay: "native", Unwind: 400})
 	props["C15"].Harnesses = append(props["C15"].Harnesses, HarnessSpec{Name: "VH_C17_no_shared_writes", Replay: "native", Unwind: 2000})
 	props["C17"].Harnesses = append(props["C17"].Harnesses, HarnessSpec{Name: "VH_C14_auth_url", Replay: "native", Unwind: 400})
+	for _, id := range []string{"C16", "C17", "C18"} {
+		props[id].Harnesses = append(props[id].Harnesses, HarnessSpec{Name: "VH_C16_from_document_twice", Replay: "native", Unwind: 2000})
+	}
+	for _, id := range []string{"C07", "C11", "C17"} {
+		props[id].Harnesses = append(props[id].Harnesses, HarnessSpec{Name: "VH_C11_rekey", Replay: "native"})
+	}
 	trust := HarnessSpec{Name: "VH_C02_trust_store", Replay: "native", Unwind: 400}
 	for _, id := range []string{"C01", "C02", "C04", "C10"} {
 		props[id].Harnesses = append(props[id].Harnesses, trust)
